@@ -249,6 +249,7 @@ def carrier_to_list(ex, st, info, node) -> Val:
         return Val(PYOBJ, None, list(info.items), True)
     if info.kind == "set":
         raise Unsupported("list() of a set-like view", node)
+    ex.need_positions(info, st)
     meta = getattr(info, "dict_items", None)
     if meta is not None and meta[2] == "keys":
         return Val(T.List(meta[0].k), meta[0].sort().keys(meta[1]))
@@ -301,6 +302,7 @@ def _len(ex, st, args, kwargs, node):
         if info.kind == "concrete":
             return Val.const(len(info.items))
         if info.kind == "indexed":
+            ex.need_positions(info, st)
             return Val(T.INT, info.n)
         raise Unsupported("len() of a set-like view", node)
     if isinstance(v.ty, T.Ref):
@@ -686,6 +688,46 @@ def _minmax(which):
 
 BUILTIN_MODELS["builtins.min"] = Model("builtins.min", _minmax("min"), "min(c) is an element of c not greater than any other")
 BUILTIN_MODELS["builtins.max"] = Model("builtins.max", _minmax("max"), "max(c) is an element of c not smaller than any other")
+
+
+@builtin("builtins.iter", "iter(c): a fresh iterator over c (only as the argument of next(..) or of a consumer of iterables)")
+def _iter(ex, st, args, kwargs, node):
+    (v,) = args
+    info = ex.iter_info(v, st, node)
+    return Val(PYOBJ, None, ("iterinfo", info, "iterator"), True)
+
+
+@builtin("builtins.next", "next(iter(c)[, default]): the first element of c (StopIteration when c is empty and no default is given)")
+def _next(ex, st, args, kwargs, node):
+    if not (isinstance(node, ast.Call) and node.args and isinstance(node.args[0], ast.Call) and isinstance(node.args[0].func, ast.Name) and node.args[0].func.id == "iter"):
+        raise Unsupported("next() of an iterator that is not created on the spot (`next(iter(c))`): iterator state is not modelled", node)
+    info = carrier_info(args[0])
+    if info is None:
+        raise Unsupported("next() of this value", node)
+    if info.kind == "concrete":
+        if info.items:
+            return info.items[0]
+        if len(args) > 1:
+            return args[1]
+        ex.safety(st, z3.BoolVal(False), "StopIteration", node)
+        raise Unsupported("next() of an empty constant iterable", node)
+    if info.kind == "set":
+        # an ARBITRARY element of the set
+        x = fresh(info.elem, "anyelem")
+        nonempty = info.set_term != z3.K(info.elem.sort(), z3.BoolVal(False))
+        if len(args) > 1:
+            st.assume(z3.Implies(nonempty, z3.Select(info.set_term, x)))
+            return ops.ite(nonempty, Val(info.elem, x), args[1])
+        ex.safety(st, nonempty, "StopIteration", node)
+        st.assume(z3.Select(info.set_term, x))
+        return Val(info.elem, x)
+    first = info.item(z3.IntVal(0))
+    if len(args) > 1:
+        return ops.ite(info.n > 0, first, args[1])
+    ex.safety(st, info.n > 0, "StopIteration", node)
+    for f in info.facts(z3.IntVal(0)):
+        st.assume(f)
+    return first
 
 
 def _anyall(which):
@@ -1312,7 +1354,6 @@ def value_method(ex, st, recv: Val, name, args, kwargs, node) -> Val:
             return ops.ite(z3.Select(s.dom(d), k), Val(t.v, z3.Select(s.map(d), k)), dflt)
         if name in ("items", "keys", "values"):
             ks = s.keys(d)
-            dict_wf(st, t, d, ex)
 
             def item(i, name=name):
                 kv = Val(t.k, ks[i])
@@ -1322,6 +1363,7 @@ def value_method(ex, st, recv: Val, name, args, kwargs, node) -> Val:
             info = IterInfo("indexed", n=z3.Length(ks), item=item, facts=lambda i: [z3.Select(s.dom(d), ks[i])],
                             seqval=Val(T.List(t.k), ks))
             info.dict_items = (t, d, name)
+            info.need_wf = (t, d)  # assumed only when a consumer uses positions (StmtMixin.need_positions)
             return Val(PYOBJ, None, ("iterinfo", info, None), True)
         if name == "copy":
             return recv
